@@ -28,8 +28,10 @@ def harnesses(tier):
     hs = [
         H("c04_constrains_distinct", SRC, bounds="any two distinct variable ids < 2^20 (root included), any version set id, empty trail",
           symbolic=["parent id", "forbidden id", "version set id"], min_covers=2, timeout=600, group="c04_constrains_distinct"),
-        H("c04_constrains_self", SRC, bounds="any variable id < 2^20 constraining itself (a solvable whose constrains entry excludes its own version)",
+        H("c04_constrains_self", SRC, bounds="PROBE: any variable id < 2^20 constraining itself (a solvable whose constrains entry excludes its own version)",
           symbolic=["variable id", "version set id"], min_covers=1, timeout=600, group="c04_constrains_self"),
+        H("c04_probe_parent_false", SRC, bounds="PROBE: requires()/constrains() for parent variable 1 with any assigned value at any level <= 1000",
+          symbolic=["parent value", "level", "constructor"], min_covers=1, timeout=600, group="c04_probe_parent_false"),
         H("c04_other_constructors", SRC, bounds="forbid_multiple (fresh helper), lock (non-root other), exclude, root, learnt of 1..3 literals over distinct variables; ids < 2^20",
           symbolic=["all ids", "polarities"], min_covers=1, timeout=600, group="c04_other"),
         H("c04_twin_must_fail", SRC, bounds="vacuity twin", expect="fail", timeout=600, group="c04"),
@@ -58,26 +60,28 @@ def functions():
 
 ASSUMPTIONS = [
     "Kani 0.68 / CBMC 6.11: panic, assert!, debug_assert!, unreachable!, arithmetic overflow, out-of-bounds and invalid-pointer checks on the dev-profile MIR",
+    "PROBE harnesses (constrains(p,p); requires/constrains with a parent already assigned false) assume nothing: a kernel counterexample is reported only if a public-API witness scenario (native run of the real Solver::solve + rendering in dev and release: `selfcons`, `selfcons_preferred`, `hintedfalse`) shows the encoder can get there; these native runs are replays, not the deciding step",
     "preconditions are limited to what the public API establishes: helper variables are fresh, locked-out candidates are not the root, learnt clauses have distinct variables, undo targets are >= the bottom level; `parent != forbidden` is NOT assumed for constrains (split into two harnesses so that the known self-constrains finding is keyed by its witness)",
     "termination and panic-freedom of Solver::solve, of Conflict::graph and of the renderer are NOT decided (hash containers, petgraph; DESIGN R1); the native witness runs below are replays, not the deciding step",
 ]
 RULE = ("one evaluation = one CBMC property (Kani's automatic panic/overflow/bounds/pointer checks plus the harness assertions) decided SUCCESS in a SUCCESSFUL harness; "
         "non-trivial = all cover witnesses SATISFIED")
 
-WITNESSES = {
-    # scenario -> (args, expected RESULT prefix)
-    "selfcons": (["selfcons"], None),
+# Probes: kernel harnesses whose precondition is NOT assumed.  A kernel-level counterexample only counts if the
+# corresponding public-API witness scenarios (native runs of the real Solver::solve + rendering, dev and release)
+# show that the encoder can actually get there; otherwise the precondition is established by the callers.
+PROBES = {
+    "c04_constrains_self": ["selfcons", "selfcons_preferred"],
+    "c04_probe_parent_false": ["hintedfalse"],
 }
+EXPECT = {"selfcons": "unsolvable", "selfcons_preferred": "solution a=2", "hintedfalse": "solution a=1 p=1"}
 
 
-def native_witness(sc, out):
-    """Public-API witness of the self-constrains counterexample: real Solver::solve + rendering, dev and release."""
-    os.makedirs(os.path.join(sc.dir, "logs"), exist_ok=True)
-    bins = c15.build_native(sc, "vnative", release_too=True)
+def run_witness(bins, scenario):
     res = {}
     for prof, b in bins.items():
         try:
-            p = subprocess.run([b, "selfcons"], capture_output=True, text=True, timeout=120)
+            p = subprocess.run([b, scenario], capture_output=True, text=True, timeout=120)
             m = re.search(r"^RESULT (.*)$", p.stdout, re.M)
             if p.returncode != 0:
                 pm = re.search(r"panicked at ([^\n]*)\n([^\n]*)", p.stderr)
@@ -86,8 +90,15 @@ def native_witness(sc, out):
                 res[prof] = m.group(1) if m else "no RESULT line"
         except subprocess.TimeoutExpired:
             res[prof] = "HANG (>120s)"
-    out.traces_validated += len(res)
     return res
+
+
+def bad_result(scenario, line):
+    if line.startswith("PANIC") or line.startswith("HANG") or line.startswith("no RESULT"):
+        return True
+    if scenario == "selfcons" and line.startswith("unsolvable message_lines="):
+        return int(line.split("=")[1]) < 2          # degenerate (header-only) conflict message
+    return not line.startswith(EXPECT[scenario])
 
 
 def run(tier, seed, only):
@@ -108,25 +119,59 @@ def run(tier, seed, only):
     runner = KaniRunner(sc, sc.repo, jobs=8)
     results = runner.run_all(hs)
     out = Outcome()
-    handle_results(PROP, results, runner, sc, sc.repo, lambda h: file_of[h.group_file], out)
-    # the self-constrains kernel counterexample is additionally shown through the public API
-    self_failed = any(r["harness"].name == "c04_constrains_self" and r["status"] == "fail" for r in results)
-    wit = native_witness(sc, out)
-    out.extra_coverage["public_api_witness_selfcons"] = wit
-    bad = {p: r for p, r in wit.items() if r.startswith("PANIC") or r.startswith("HANG")}
+    normal = [r for r in results if r["harness"].name not in PROBES]
+    probes = [r for r in results if r["harness"].name in PROBES]
+    handle_results(PROP, normal, runner, sc, sc.repo, lambda h: file_of[h.group_file], out)
+    # ---- probes + public-API witnesses ----------------------------------------------------------------------
+    os.makedirs(os.path.join(sc.dir, "logs"), exist_ok=True)
+    bins = c15.build_native(sc, "vnative", release_too=True)
     known, _ = load_known_findings()
-    kk = {k["key"] for k in known if k["property"] == PROP}
-    if bad:
-        key = "c04_selfcons_api:" + "_".join(sorted(bad))
-        if "c04_constrains_self:assertion_failed_watched_literals_0_watched_literals_1" in kk:
-            log("KNOWN-FINDING: property=%s public-API witness (a=1 constrains a in {2}): %s" % (PROP, bad))
+    kk = {k["key"]: k for k in known if k["property"] == PROP}
+    witness_log = {}
+    for r in probes:
+        h, p = r["harness"], r["parsed"]
+        rec = {"harness": h.name, "bounds": h.bounds, "symbolic": h.symbolic, "enumerated": h.enumerated,
+               "verdict": r["status"], "expect": "probe", "checks_decided": p["n_success"], "checks_total": p["n_checks"],
+               "covers": "%d/%d" % (p["covers_satisfied"], p["covers_total"]), "cbmc_time_s": p["verification_time_s"],
+               "wall_s": r["wall_s"]}
+        out.harness_records.append(rec)
+        if p["verification_time_s"]:
+            out.solver_time += p["verification_time_s"]
+        if r["status"] == "inconclusive":
+            out.inconclusive.append("%s: %s" % (h.name, r["why"]))
+            continue
+        out.evaluations += p["n_success"]
+        out.discharged += p["n_success"]
+        kernel_cex = r["status"] == "fail"
+        rec["kernel_counterexample"] = [c["description"] for c in p["failed_checks"]][:3] if kernel_cex else None
+        reachable = {}
+        for scen in PROBES[h.name]:
+            w = run_witness(bins, scen)
+            out.traces_validated += len(w)
+            witness_log[scen] = w
+            bad = {prof: line for prof, line in w.items() if bad_result(scen, line)}
+            if bad:
+                reachable[scen] = bad
+        rec["public_api_witnesses"] = {s_: witness_log[s_] for s_ in PROBES[h.name]}
+        if reachable:
+            key = "%s:api_witness_%s" % (h.group, "+".join(sorted(reachable)))
+            what = "public-API witness %s misbehaves: %s (kernel counterexample: %s)" % (sorted(reachable), reachable, rec["kernel_counterexample"])
+            if key in kk:
+                log("KNOWN-FINDING: property=%s %s [%s]" % (PROP, kk[key]["what"], key))
+                out.known.append({"key": key, "what": kk[key]["what"]})
+            else:
+                os.makedirs(os.path.join(REPLAY_DIR, PROP), exist_ok=True)
+                rp = os.path.join(REPLAY_DIR, PROP, "%s.json" % h.name)
+                json.dump({"scenarios": sorted(reachable), "results": reachable, "harness": h.name}, open(rp, "w"), indent=1)
+                out.violations.append({"key": key, "what": what, "replay": rp})
+                log("VIOLATION property=%s replay=%s" % (PROP, rp))
+                log("  %s" % what[:400])
         else:
-            os.makedirs(os.path.join(REPLAY_DIR, PROP), exist_ok=True)
-            rp = os.path.join(REPLAY_DIR, PROP, "selfcons_api.json")
-            json.dump({"scenario": "selfcons", "results": wit}, open(rp, "w"), indent=1)
-            out.violations.append({"key": key, "what": "solve/rendering panics or hangs on a solvable that constrains itself: %s" % bad, "replay": rp})
-    elif self_failed:
-        log("note: kernel counterexample constrains(p,p) did not surface through the public API witness: %s" % wit)
+            rec["verdict"] = "probe: kernel precondition %s; not reachable through the public-API witnesses" % (
+                "violable in isolation" if kernel_cex else "not violable")
+            if p["covers_total"] and p["covers_satisfied"] == p["covers_total"]:
+                out.nontrivial += 1
+    out.extra_coverage["public_api_witnesses"] = witness_log
     rc = finish(PROP, tier, seed, out, t0, functions(), ASSUMPTIONS, [], sc.scalings, RULE)
     sc.cleanup()
     return rc
@@ -134,14 +179,18 @@ def run(tier, seed, only):
 
 def replay(path):
     info = json.load(open(path))
-    if info.get("scenario") == "selfcons":
+    if "scenarios" in info:
         sc = Scratch("c04_replay")
-        out = Outcome()
-        wit = native_witness(sc, out)
-        log("replay selfcons -> %s" % wit)
+        os.makedirs(os.path.join(sc.dir, "logs"), exist_ok=True)
+        bins = c15.build_native(sc, "vnative", release_too=True)
+        rc = 0
+        for scen in info["scenarios"]:
+            w = run_witness(bins, scen)
+            log("replay %s -> %s" % (scen, w))
+            if any(bad_result(scen, line) for line in w.values()):
+                rc = 1
         sc.cleanup()
-        if any(r.startswith("PANIC") or r.startswith("HANG") for r in wit.values()):
+        if rc:
             log("VIOLATION property=%s replay=%s" % (PROP, path))
-            return 1
-        return 0
+        return rc
     return replay_incrate(PROP, path, ATTACH, scalings=[ARENA_SCALE])
